@@ -89,6 +89,8 @@ Schema(c) ==
     ("RA" :> DAlias("na", TStr(Unset, Unset, ""), "")) @@
     ("RB" :> DAlias("na", TRef("RA"), "")) @@
     ("MaybeName" :> DAlias("na", TNull(TRef("Name")), "")) @@
+    \* a type whose name is a reserved word of the Swift naming scheme (which then appends an underscore), used elsewhere
+    ("Extension" :> DStruct("na", "", <<Fld("ext", Str)>>, <<>>, FALSE)) @@
     \* a LOCAL alias of a foreign alias (Shade, in the shared namespace) of a class of a third namespace (nd.Tint)
     ("Hue" :> DAlias("na", TRef("Shade"), "")) @@
     ("Tree" :> DStruct("na", "", <<Fld("t", I32)>>, <<Sub("leaf_a", "LeafA")>>, TRUE)) @@
@@ -105,7 +107,7 @@ Schema(c) ==
                                    Fld("cells", TList(TList(TRef("Entry"), Unset, Unset), Unset, Unset)),
                            Fld("label", TRef("Label")), Fld("ra", TNull(TRef("RA"))),
                            Fld("trees", TMap(TRef("Tree"))),          \* a map of structs with enumerated subtypes
-                           Fld("hue", TNull(TRef("Hue"))),
+                           Fld("hue", TNull(TRef("Hue"))), Fld("ext_info", TNull(TRef("Extension"))),
                            Fld("shades", TNull(TRef("Shades"))), Fld("maybe_shade", TRef("MaybeShade")),
                            Fld("saplings", TList(TNull(TRef("Tree")), Unset, Unset)),   \* nullable items with enumerated subtypes
                            Fld("rb", TList(TRef("RB"), Unset, Unset))>>, <<>>, FALSE)) @@
